@@ -647,7 +647,9 @@ class Exec:
     def setattr(self, obj, name, v):
         if isinstance(obj, Obj):
             if 'setattr' in self.hooks:
-                self.hooks['setattr'](self, obj, name, v)
+                r = self.hooks['setattr'](self, obj, name, v)
+                if r is not None:
+                    v = r[0]
             obj.attrs[name] = v
             return
         raise Unsupported(f'setattr on {obj!r}')
@@ -1134,7 +1136,8 @@ class Exec:
         return self.getitem(obj, slice(lo, hi, k.step))
 
     def ex_ListComp(self, e, fr):
-        return list(self.comprehension(e.elt, e.generators, fr))
+        r = self.comprehension(e.elt, e.generators, fr)
+        return r if not isinstance(r, list) else list(r)
 
     def ex_GeneratorExp(self, e, fr):
         return list(self.comprehension(e.elt, e.generators, fr))
@@ -1154,6 +1157,10 @@ class Exec:
         sub = Frame(fr.module, fr.func)
         sub.locals = dict(fr.locals)
         out = []
+        first = self.eval(gens[0].iter, sub)
+        from .symmap import SortedKeys, Combined
+        if isinstance(first, SortedKeys):
+            return self.combined_comprehension(first.map, elt, gens, sub)
 
         def rec(i):
             if i == len(gens):
@@ -1166,6 +1173,27 @@ class Exec:
                     rec(i + 1)
         rec(0)
         return out
+
+    def combined_comprehension(self, m, elt, gens, sub):
+        """[b for idx in sorted(M) for b in M[idx]]  /  ... in M[idx][::-1]]  over a symbolic map M."""
+        from .symmap import Combined
+        ok = (len(gens) == 2 and not gens[0].ifs and not gens[1].ifs and isinstance(gens[0].target, ast.Name)
+              and isinstance(gens[1].target, ast.Name) and isinstance(elt, ast.Name) and elt.id == gens[1].target.id)
+        if not ok:
+            raise Unsupported('comprehension over sorted(symbolic map) of an unmodelled shape')
+        it = gens[1].iter
+        each_rev = False
+        if isinstance(it, ast.Subscript) and isinstance(it.slice, ast.Slice) and it.slice.lower is None and it.slice.upper is None \
+                and it.slice.step is not None and isinstance(it.slice.step, ast.UnaryOp) and isinstance(it.slice.step.op, ast.USub) \
+                and isinstance(it.slice.step.operand, ast.Constant) and it.slice.step.operand.value == 1:
+            each_rev = True
+            it = it.value
+        if not (isinstance(it, ast.Subscript) and isinstance(it.slice, ast.Name) and it.slice.id == gens[0].target.id):
+            raise Unsupported('comprehension over sorted(symbolic map) of an unmodelled shape')
+        base = self.eval(it.value, sub)
+        if base is not m:
+            raise Unsupported('comprehension indexes a different map than it iterates')
+        return Combined(m.snapshot(), 'asc', each_rev, None, as_list=True)
 
     def ex_Lambda(self, e, fr):
         return Opaque('lambda')
